@@ -603,6 +603,53 @@ pub fn c09(thorough: bool, replay: Option<String>) -> i32 {
         }
         c09_modern(st, p);
     });
+    // (c) compiler outputs: the text the command-line compiler prints denotes the bytes the library emits
+    {
+        use crate::gen::*;
+        use crate::progmc::{dialect_of, entry_option_sets};
+        let mut cases: Vec<Case> = vec![];
+        for s in ["*standard-cl-23.1*", "*standard-cl-24*"] {
+            cases.extend(oplit_cases(Some(s)));
+            if thorough {
+                for c in scope_chains(1) {
+                    cases.push(scope_case(&c, NamePolicy::Fresh, Some(s)));
+                }
+            }
+        }
+        let n = cases.len() as u64;
+        let (st, capped) = par_range(n, 8, cap, || (), |_, st, i| {
+            let c = &cases[i as usize];
+            let sigil = c.prog.sigil.unwrap();
+            for (optname, o) in entry_option_sets(sigil) {
+                st.eval();
+                let text = c.prog.text();
+                if let Ok(out) = modern_compile(&text, dialect_of(sigil), &o) {
+                    if c.tags.get(1).map(|t| t.starts_with("quote-")).unwrap_or(false) {
+                        st.outcome("quoted-symbol-program(excluded by the property)");
+                        continue;
+                    }
+                    match assemble(&out.text) {
+                        Ok(t) if t == out.code => {
+                            st.outcome("printed-text-denotes-the-emitted-bytes");
+                            st.nontrivial(&(&text, optname));
+                            if out.text.len() < 120 {
+                                st.sample(json!({"program": text, "printed": out.text, "bytes": out.code.hex()}));
+                            }
+                        }
+                        other => st.violation(
+                            &format!("compiler-output/printed-text-differs/{}", c.tags.get(1).cloned().unwrap_or_default().split(':').next().unwrap_or("")),
+                            format!("{} [{}]: printed program text {:?} assembles to {:?}, the library emits {}", text, optname, out.text, other.map(|t| t.short()), out.code.short()),
+                            text.len(),
+                            json!({"kind": "compiled", "text": text, "sigil": sigil, "opts": optname}),
+                        ),
+                    }
+                } else {
+                    st.outcome("rejected");
+                }
+            }
+        });
+        rep.add_sub("compiler-outputs", &format!("{} generated programs with string / hex / negative / large / zero-prefixed literal constants and every operator in 8 positions, fixed-mode dialects cl23.1 and cl24, both entry option sets: assemble(printed text) must equal the bytes of convert_to_clvm_rs", n), n, true, capped, st);
+    }
     rep.add_sub("long-atoms", "atoms of lengths 4..1000 (pattern, all-letters, all-zero, all-ff, with one backslash / double quote / both quotes, digits-only, negative-looking) x 4 positions, all four round trips", n, true, capped, st);
     rep.finish()
 }
